@@ -24,34 +24,44 @@ def dictify_complex_values(data: dict) -> dict:
             data[key] = {'real': value.real, 'imag': value.imag}
     return data
 
+def complex_value_of(value: dict) -> complex | None:
+    if sorted(list(value.keys())) == sorted(['real', 'imag']):
+        return complex(value['real'], value['imag'])
+    if sorted(list(value.keys())) == sorted(['abs', 'phase']):
+        if value['abs'] < 0:
+            raise ValueError("abs value may not be negative")
+        return value['abs'] * complex(np.cos(value['phase']), np.sin(value['phase']))
+    if sorted(list(value.keys())) == sorted(['abs', 'phase_deg']):
+        if value['abs'] < 0:
+            raise ValueError("abs value may not be negative")
+        phase_rad = np.deg2rad(value['phase_deg'])
+        return value['abs'] * complex(np.cos(phase_rad), np.sin(phase_rad))
+    return None
+
 def undictify_complex_values(data: dict) -> dict:
     for key, value in data.items():
-        if isinstance(value, dict) and sorted(list(value.keys())) == sorted(['real', 'imag']):
-            data[key] = complex(value['real'], value['imag'])
-        if isinstance(value, dict) and sorted(list(value.keys())) == sorted(['abs', 'phase']):
-            if value['abs'] < 0:
-                raise ValueError("abs value of '{key}' may not be negative")
-            data[key] = value['abs'] * complex(np.cos(value['phase']), np.sin(value['phase']))
-        if isinstance(value, dict) and sorted(list(value.keys())) == sorted(['abs', 'phase_deg']):
-            if value['abs'] < 0:
-                raise ValueError("abs value of '{key}' may not be negative")
-            phase_rad = np.deg2rad(value['phase_deg'])
-            data[key] = value['abs'] * complex(np.cos(phase_rad), np.sin(phase_rad))
+        if isinstance(value, dict) and complex_value_of(value) is not None:
+            data[key] = complex_value_of(value)
     return data
 
-def dictify_all_complex_values(data: dict) -> dict:
-    for key, value in data.items():
-        if isinstance(value, dict):
-            data[key] = dictify_all_complex_values(value)
+def dictify_all_complex_values(data):
+    if isinstance(data, complex):
+        return {'real': data.real, 'imag': data.imag}
+    if isinstance(data, dict):
+        return {key: dictify_all_complex_values(value) for key, value in data.items()}
+    if isinstance(data, (list, tuple)):
+        return [dictify_all_complex_values(value) for value in data]
     return data
 
-def undictify_all_complex_values(data: dict) -> dict:
-    for key, value in data.items():
+def undictify_all_complex_values(data):
+    def undictify(value):
         if isinstance(value, dict):
-            data[key] = undictify_all_complex_values(value)
+            z = complex_value_of(value)
+            return z if z is not None else undictify_all_complex_values(value)
         if isinstance(value, list):
-            data[key] = [undictify_all_complex_values(v) for v in value]
-    return undictify_complex_values(data)
+            return [undictify(v) for v in value]
+        return value
+    return {key: undictify(value) for key, value in data.items()}
 
 def serialize(data: T, format: str, dict_processor: Callable[[T], dict] = dictify_all_complex_values) -> str:
     serializer = serializers.get(format, None)
